@@ -32,7 +32,7 @@ ASSUMPTIONS = [
     "responses are well-formed (the statement quantifies over responses, not over garbage); no bytes follow a "
     "complete response",
 ]
-MIN = {"quick": {"evaluations": 280000, "nontrivial": 280000, "outcomes": 7},
+MIN = {"quick": {"evaluations": 345000, "nontrivial": 345000, "outcomes": 7},
        "thorough": {"evaluations": 2000000, "nontrivial": 2000000, "outcomes": 7}}
 
 TIMINGS = ["now", "before-next-event", "after-loss"]
